@@ -69,6 +69,7 @@ func (rl *Shell) Readline() (string, error) {
 	defer close(resize)
 
 	for {
+		core.YieldPoint("loop.top")
 		// Whether or not the command is resolved, let the macro
 		// engine record the keys if currently recording a macro.
 		// This is done before flushing all used keys, on purpose.
@@ -82,6 +83,7 @@ func (rl *Shell) Readline() (string, error) {
 		// Since we always update helpers after being asked to read
 		// for user input again, we do it before actually reading it.
 		rl.Display.Refresh()
+		core.YieldPoint("loop.refreshed")
 
 		// Block and wait for available user input keys.
 		// These might be read on stdin, or already available because
@@ -94,6 +96,7 @@ func (rl *Shell) Readline() (string, error) {
 			continue
 		}
 
+		core.YieldPoint("loop.run.local")
 		accepted, line, err := rl.run(false, bind, command)
 		if accepted {
 			return line, err
@@ -113,6 +116,7 @@ func (rl *Shell) Readline() (string, error) {
 			continue
 		}
 
+		core.YieldPoint("loop.run.main")
 		accepted, line, err = rl.run(true, bind, command)
 		if accepted {
 			return line, err
